@@ -55,7 +55,7 @@ def versions_stage(ctx):
                 if sent is not exp or extra:
                     ctx.violation("version.legacy_gate_" + g, {"mode": "G", "k": "gate", "gate": g, "version": vs(v), "threshold": vs(t), "previous": prev},
                                   {"command_sent": exp}, {"writes": port.writes})
-            except Exception as ex:  # pylint: disable=broad-except
+            except (Exception, ebbfake.Endless) as ex:  # pylint: disable=broad-except
                 ctx.violation("version.legacy_gate_" + g, {"mode": "G", "k": "gate", "gate": g, "version": vs(v), "threshold": vs(t), "previous": prev}, {"command_sent": exp},
                               "raised " + type(ex).__name__)
         prev = (prev + [this])[-3:]
